@@ -154,6 +154,9 @@ def holdsC03vals (C : Cls) (tt : TypeTable) (segs : List OSeg) (args : List GoVa
   ((List.range exprs.length).zip (exprs.zip o.params)).all fun (k, s, p) =>
     match s.types with
     | [a] =>
+      -- evaluated only when exactly one argument has that type name (two same-named
+      -- arguments are rejected by a correct Query; if they are accepted that is C08's failure)
+      if (args.filter (fun v => v.typeName tt == a.ty)).length != 1 then true else
       match args.find? (fun v => v.typeName tt == a.ty) with
       | some v =>
         match valueByTag C tt 8 v a.member with
